@@ -234,6 +234,31 @@ func genCases(f fnSpec, thorough bool, r *rand.Rand) []Case {
 			}
 		}
 	}
+	// many valid, large, overlapping iovecs (image iovflood): what the host does per call must stay proportional to the
+	// guest memory whatever the NUMBER of buffers is (each one is in bounds; their sum is not bounded by the memory)
+	for i, p := range f.params {
+		if p.name != "iovs" && p.name != "ri_data" && p.name != "si_data" {
+			continue
+		}
+		for _, fd := range []uint64{0, 1, 2, 4} {
+			for _, n := range []uint64{1, 2, 3, 64, 1024, S/8 - 1, S / 8} {
+				for _, st := range []string{"bare", "dir"} {
+					a := make([]uint64, len(f.params))
+					for k, q := range f.params {
+						a[k] = q.base
+					}
+					for _, k := range f.fdParams() {
+						a[k] = fd
+					}
+					a[i] = 0
+					if i+1 < len(a) {
+						a[i+1] = n // the length parameter follows the pointer
+					}
+					add(a, st, "iovflood", engines[int(n)%2], "iovflood")
+				}
+			}
+		}
+	}
 	// fd_renumber allocation probes (moderately large keys + the 2^31-1 case; guarded child only)
 	if f.name == "fd_renumber" {
 		for _, st := range []string{"dir", "hole"} {
